@@ -338,19 +338,20 @@ theorem attachNode_sub {live : Bool} {fp : List Str} {Fm t0 : Tree} {parent : Op
 
 theorem attach_sub {cfg : Cfg} {sn : Bool} {d : Dest} {fp : List Str} {F0 : Tree} {r : Tree × Nat}
     (h : attach cfg sn d fp F0 = .ok r) :
-    ((flat d.dst).filter (fun e => !(sn && under fp e))).Sublist (flat r.1) := by
-  unfold attach at h
-  simp only at h
-  -- `live` implies `sn`
+    ((flat d.dst).filter (fun e => !((sn && !cfg.copy) && under fp e))).Sublist (flat r.1) := by
+  -- `live` implies `sn` and `¬copy`
   have hlive : ∀ e : Entry,
-      (!(sn && under fp e)) = true →
+      (!((sn && !cfg.copy) && under fp e)) = true →
       (!(((if sn then getRel fp d.dst else none).isSome && !cfg.copy) && under fp e)) = true := by
     intro e he
-    cases sn <;> simp_all
+    clear h
+    cases sn <;> cases hc : cfg.copy <;> simp_all
+  unfold attach at h
+  simp only at h
   have mono : ∀ {t : Tree},
       ((flat d.dst).filter (fun e =>
         !(((if sn then getRel fp d.dst else none).isSome && !cfg.copy) && under fp e))).Sublist (flat t) →
-      ((flat d.dst).filter (fun e => !(sn && under fp e))).Sublist (flat t) := by
+      ((flat d.dst).filter (fun e => !((sn && !cfg.copy) && under fp e))).Sublist (flat t) := by
     intro t hs
     exact (filter_mono _ _ hlive _).trans hs
   split at h
@@ -383,7 +384,7 @@ entries of the new tree. -/
 theorem step_sub {cfg : Cfg} {st st' : St} {pr : Str × Option Str} {fp : List Str} {F : Tree}
     (hres : resolveFrom cfg st pr.1 = .ok (some (fp, F))) (h : step cfg st pr = .ok st') :
     ((flat st.dst).filter (fun e =>
-      !touched (if st.src.isNone then some fp else none) (destHandle cfg st pr.2) e)).Sublist
+      !touched (if st.src.isNone && !cfg.copy then some fp else none) (destHandle cfg st pr.2) e)).Sublist
       (flat st'.dst) := by
   unfold step at h
   simp only [hres] at h
@@ -398,14 +399,14 @@ theorem step_sub {cfg : Cfg} {st st' : St} {pr : Str × Option Str} {fp : List S
       simp only
       have h1 := decideTo_sub hd
       have h2 := attach_sub ha
-      have h1' := h1.filter (fun e => !(st.src.isNone && under fp e))
+      have h1' := h1.filter (fun e => !((st.src.isNone && !cfg.copy) && under fp e))
       refine List.Sublist.trans ?_ (h1'.trans h2)
       rw [List.filter_filter]
       have e : ∀ e ∈ flat st.dst,
-          (!touched (if st.src.isNone then some fp else none) (destHandle cfg st pr.2) e) =
-          (!(st.src.isNone && under fp e) && !touched none (destHandle cfg st pr.2) e) := by
+          (!touched (if st.src.isNone && !cfg.copy then some fp else none) (destHandle cfg st pr.2) e) =
+          (!((st.src.isNone && !cfg.copy) && under fp e) && !touched none (destHandle cfg st pr.2) e) := by
         intro e _
-        cases hs : st.src.isNone <;> simp [touched]
+        cases hs : st.src.isNone <;> cases hc : cfg.copy <;> simp [touched]
       rw [List.filter_congr e]
       exact List.Sublist.refl _
 
